@@ -343,15 +343,11 @@ static int r_apply(const struct mstate* pre, const struct mstate* post, struct o
       if (post->slot[o.b] < 0) rslot[o.b] = NULL;
       return res;
     case OP_SET: case OP_REPLACE: {
-      /* the call drops the displaced member, and with it possibly the last other reference to the lent item (the member
-       * is the item, or a container holding it): a client may only lend what stays alive without its own reference */
-      bool self = o.b < 200 && (int)o.b < pre->n[a].nmem && m_reaches(pre, pre->n[a].mem[o.b], pre->slot[o.c]);
-      bool lend0 = g_lend;
-      if (self) g_lend = false;
+      /* also when the call displaces the lent item itself, or a container that holds it: the callee takes its own
+       * reference to the new value, so the hand-over is rule-following however the old member relates to it */
       LEND(rslot[o.c]);
       res = o.code == OP_SET ? LIB(cbor_array_set(rslot[o.a], o.b >= 200 ? huge_index(o.b) : o.b, rslot[o.c])) : LIB(cbor_array_replace(rslot[o.a], o.b >= 200 ? huge_index(o.b) : o.b, rslot[o.c]));
       LIBEND(); UNLEND(rslot[o.c], res);
-      g_lend = lend0;
       return res;
     }
     case OP_GET: {
